@@ -118,6 +118,18 @@ pub fn c14(args: &Args, reg: &[TypeEntry], log: &mut Log) {
                 checks.insert("as=twin".into(), json!({"equal": ta == tb, "as": ta, "twin": tb}));
             }
         }
+        for role in ["variant-as", "variant-as-struct"] {
+            if let (Some(a), Some(b)) = (texts.get(role), texts.get("variant-twin")) {
+                let renamed = |v: &Value| -> Option<String> {
+                    let t = v["decl"]["Ok"].as_str()?;
+                    let d = parse::parse_decl(t).ok()?;
+                    Some(t.replacen(&format!("type {} ", d.name), "type X ", 1))
+                };
+                if let (Some(ta), Some(tb)) = (renamed(a), renamed(b)) {
+                    checks.insert(format!("{role}=twin"), json!({"equal": ta == tb, "as": ta, "twin": tb}));
+                }
+            }
+        }
         if let (Some((a, _)), Some(fi)) = (bodies.get("container-as"), &finline) {
             match parse::parse_type(fi) {
                 Ok(ft) => {
